@@ -49,6 +49,12 @@ type c27Step struct {
 	Form   int    `json:"form,omitempty"`   // junk: 0 short header for the conn, 1 Handshake-type garbage for the conn, 2 short header, unknown connection ID
 	Full   bool   `json:"full,omitempty"`   // handshake: carry the client's Finished (else PING)
 	N      int    `json:"n,omitempty"`      // advance: number of consecutive timer expirations to wait for
+	// initial: several packets coalesced in the one datagram. split: the ClientHello over
+	// two Initial packets; ping: CoN extra PING-only Initial packets before the real one;
+	// hsbefore/hsafter: CoN Handshake-type long-header packets the server has no keys for
+	// (or cannot decrypt) before/after the Initial; 0rtt: CoN 0-RTT-type packets after it.
+	Co  string `json:"co,omitempty"`
+	CoN int    `json:"con,omitempty"`
 }
 
 type c27Case struct {
@@ -75,6 +81,10 @@ func c27Gen(t *rapid.T) c27Case {
 			}
 			if c.Retry {
 				s.Token = rapid.SampledFrom([]string{"", "valid", "valid", "corrupt"}).Draw(t, "token")
+			}
+			if rapid.IntRange(0, 2).Draw(t, "coalesce") == 0 {
+				s.Co = rapid.SampledFrom([]string{"split", "ping", "ping", "hsbefore", "hsafter", "hsafter", "0rtt"}).Draw(t, "co")
+				s.CoN = rapid.IntRange(1, 3).Draw(t, "con")
 			}
 			return s
 		case k < 50:
@@ -286,7 +296,63 @@ func c27Run(t *testing.T, c c27Case, r *vp.Rec) (verdict error, padSig bool) {
 						intact = true
 					}
 				}
-				b = encodeTestPacket(t, te.connForDestination(p.dstConnID), p, 0)
+				// The datagram: the Initial packet, possibly coalesced with others.
+				ptc := te.connForDestination(p.dstConnID)
+				extra := func(frames ...debugFrame) *testPacket {
+					q := *p
+					q.num, q.frames = initialNum, frames
+					initialNum++
+					return &q
+				}
+				keyless := func(typ byte, i int) []byte {
+					k := []byte{headerFormLong | fixedBit | typ, 0, 0, 0, 1, byte(len(p.dstConnID))}
+					k = append(k, p.dstConnID...)
+					k = append(k, byte(len(srcID)))
+					k = append(k, srcID...)
+					k = append(k, 0x40, 30) // Length: 30 bytes of packet number and payload
+					return filler(k, len(k)+30, si+i)
+				}
+				switch st.Co {
+				case "split":
+					if st.Crypto == "full" {
+						p.frames = []debugFrame{debugFrameCrypto{data: hello[:len(hello)/2]}}
+						b = encodeTestPacket(t, ptc, p, 0)
+						b = append(b, encodeTestPacket(t, ptc, extra(debugFrameCrypto{off: int64(len(hello) / 2), data: hello[len(hello)/2:]}), 0)...)
+					} else {
+						b = encodeTestPacket(t, ptc, p, 0)
+						b = append(b, encodeTestPacket(t, ptc, extra(debugFramePing{}), 0)...)
+					}
+					r.Class("coalesced:initial+initial")
+				case "ping":
+					real := *p
+					p.frames = []debugFrame{debugFramePing{}}
+					b = encodeTestPacket(t, ptc, p, 0)
+					for i := 1; i < st.CoN; i++ {
+						b = append(b, encodeTestPacket(t, ptc, extra(debugFramePing{}), 0)...)
+					}
+					real.num = initialNum
+					initialNum++
+					b = append(b, encodeTestPacket(t, ptc, &real, 0)...)
+					r.Class("coalesced:initial+initial")
+				case "hsbefore":
+					for i := 0; i < st.CoN; i++ {
+						b = append(b, keyless(longPacketTypeHandshake, i)...)
+					}
+					b = append(b, encodeTestPacket(t, ptc, p, 0)...)
+					r.Class("coalesced:undecryptable-handshake+initial")
+				case "hsafter", "0rtt":
+					b = encodeTestPacket(t, ptc, p, 0)
+					for i := 0; i < st.CoN; i++ {
+						if st.Co == "0rtt" {
+							b = append(b, keyless(longPacketType0RTT, i)...)
+						} else {
+							b = append(b, keyless(longPacketTypeHandshake, i)...)
+						}
+					}
+					r.Class("coalesced:initial+undecryptable-long-header")
+				default:
+					b = encodeTestPacket(t, ptc, p, 0)
+				}
 				if len(b) < st.Size {
 					b = pad(b, st.Size)
 				}
